@@ -35,6 +35,7 @@ var findingOrder = []string{
 	"interval-unit-printed-raw",
 	"collate-charset-printed-raw",
 	"convert-type-printed-raw",
+	"group-concat-separator-printed-raw",
 }
 
 func isNullOrRand(e sqlparser.Expr) bool {
@@ -104,6 +105,10 @@ func constructsOf(n interface{}) []string {
 	case *sqlparser.CollateExpr:
 		if needsQuoting(x.Charset) || x.Charset == "" {
 			return []string{"collate-charset-printed-raw"}
+		}
+	case *sqlparser.GroupConcatExpr:
+		if raw, ok := separatorOf(x.Separator); ok && strings.ContainsAny(raw, "'\\\n") {
+			return []string{"group-concat-separator-printed-raw"}
 		}
 	case *sqlparser.ConvertUsingExpr:
 		if needsQuoting(x.Type) || x.Type == "" {
@@ -229,23 +234,7 @@ func repairedFormatter(on map[string]bool) sqlparser.NodeFormatter {
 			}
 		case *sqlparser.SQLVal:
 			if on["string-literal-escapes"] && x.Type == sqlparser.StrVal {
-				// the tokenizer (scanString) undoes exactly \' \\ and \n
-				var sb strings.Builder
-				sb.WriteByte('\'')
-				for _, c := range x.Val {
-					switch c {
-					case '\'':
-						sb.WriteString(`\'`)
-					case '\\':
-						sb.WriteString(`\\`)
-					case '\n':
-						sb.WriteString(`\n`)
-					default:
-						sb.WriteByte(c)
-					}
-				}
-				sb.WriteByte('\'')
-				buf.Myprintf("%s", sb.String())
+				buf.Myprintf("%s", quoteSQLString(x.Val))
 				return
 			}
 			if on["positional-arg-printed-as-named"] && x.Type == sqlparser.ValArg {
@@ -276,6 +265,11 @@ func repairedFormatter(on map[string]bool) sqlparser.NodeFormatter {
 			}
 			if on["collate-charset-printed-raw"] && needsQuoting(x.Charset) {
 				buf.Myprintf("%v collate %v", x.Expr, sqlparser.NewColIdent(x.Charset))
+				return
+			}
+		case *sqlparser.GroupConcatExpr:
+			if raw, ok := separatorOf(x.Separator); ok && on["group-concat-separator-printed-raw"] {
+				buf.Myprintf("group_concat(%s%v%v separator %s)", x.Distinct, x.Exprs, x.OrderBy, quoteSQLString([]byte(raw)))
 				return
 			}
 		case *sqlparser.ConvertUsingExpr:
@@ -379,4 +373,33 @@ func needsQuoting(name string) bool {
 		return false
 	}
 	return sqlparser.String(sqlparser.NewColIdent(name)) != name
+}
+
+// quoteSQLString escapes exactly what the tokenizer (scanString) undoes: \' \\ and \n.
+func quoteSQLString(val []byte) string {
+	var sb strings.Builder
+	sb.WriteByte('\'')
+	for _, c := range val {
+		switch c {
+		case '\'':
+			sb.WriteString(`\'`)
+		case '\\':
+			sb.WriteString(`\\`)
+		case '\n':
+			sb.WriteString(`\n`)
+		default:
+			sb.WriteByte(c)
+		}
+	}
+	sb.WriteByte('\'')
+	return sb.String()
+}
+
+// separatorOf undoes the grammar action of separator_opt, which stores " separator '" + raw + "'".
+func separatorOf(s string) (string, bool) {
+	const pre = " separator '"
+	if strings.HasPrefix(s, pre) && strings.HasSuffix(s, "'") && len(s) > len(pre) {
+		return s[len(pre) : len(s)-1], true
+	}
+	return "", false
 }
